@@ -239,3 +239,38 @@ def _reach(cfg, start: int, blocked) -> Set[int]:
             seen.add(e.dst)
             stack.append(e.dst)
     return seen
+
+
+# ---------------------------------------------------------------------------------- CONCLUDED-PER-CONCLUSION
+def rule_concluded_per_conclusion(db: ProgramDB) -> List[Instance]:
+    """What a selector remembers as 'already concluded' is remembered per conclusion: the store it consults and extends
+    in update_conclusion is selected by the conclusions at hand, so that two branches concluding on the same variables (the
+    same item, another constant) do not shadow each other."""
+    from .binding import derived_closure, names_in
+    out = []
+    m = db.method("ConclusionSelector", "update_conclusion")
+    cp = "conclusions" if "conclusions" in m.params else (m.positional_params[2] if len(m.positional_params) > 2 else None)
+    if cp is None:
+        raise AnalysisError("ConclusionSelector.update_conclusion: the conclusions parameter was not found")
+    derived = derived_closure(m, {cp})
+    # names bound by comprehensions / loops over the conclusions also derive from them
+    uses = [c for c in own_calls(m) if call_attr(c) in ("check", "add") and isinstance(c.func, ast.Attribute)]
+    uses = [c for c in uses if "concluded" in unparse(c.func.value) or "seen" in unparse(c.func.value).lower()]
+    if not uses:
+        raise AnalysisError("ConclusionSelector.update_conclusion: no consultation of the 'concluded before' store found")
+    defs = local_defs(m)
+    for c in uses:
+        recv = c.func.value
+        expr_names = names_in(recv)
+        # follow one level of local definition (store = self.concluded_before[...].setdefault(<key from conclusions>, …))
+        for nm in list(expr_names):
+            for d in defs.get(nm, []):
+                if isinstance(d, ast.AST):
+                    expr_names |= names_in(d)
+        ok = bool(expr_names & derived) or cp in expr_names
+        out.append(inst("CONCLUDED-PER-CONCLUSION", HOLDS if ok else VIOLATION, m, f"ConclusionSelector.update_conclusion[{unparse(c)[:50]}]",
+                        f"the store is selected by `{cp}`" if ok else
+                        f"`{unparse(recv)}` does not depend on `{cp}`: whether a conclusion was drawn before is looked up by the binding of "
+                        f"its variables only, so after the base concluded Label(item, 'K1') for an item the alternative's "
+                        f"Label(item, 'K2') counts as already drawn for that item (and the other way round)", line=c.lineno))
+    return out
